@@ -5,7 +5,7 @@
         the shape the library consumes. *)
 From Coq Require Import List Bool Ascii String ZArith Lia.
 From FM Require Import Base.Result Base.Str Base.AstOp Gen.Tables_core Model.Ast Model.FM Model.PFM
-     Model.Queries Gen.Tables_json Format.Json.
+     Model.Queries Gen.Tables_json Format.Json Proofs.C16Facts.
 Import ListNotations.
 Local Open Scope string_scope.
 Local Open Scope list_scope.
@@ -145,7 +145,8 @@ Definition rd_go (rec : path -> ptr -> aval -> result pfeature) (here : path) :=
         match jlist chv with Err e => Err e | Ok chl =>
         match rd_goc rec here k 0%nat chl with
         | Err e => Err e
-        | Ok children =>
+        | Ok [] => Err ParsingException
+        | Ok ((_ :: _) as children) =>
             match jget "type" rel with Err e => Err e | Ok tv =>
             match jstr tv with Err e => Err e | Ok rtype =>
             match json_relation_cards rtype rel (List.length children) with
@@ -166,7 +167,8 @@ Definition rd_rel (rec : path -> ptr -> aval -> result pfeature) (here : path) (
   match jlist chv with Err e => Err e | Ok chl =>
   match rd_goc rec here k 0%nat chl with
   | Err e => Err e
-  | Ok children =>
+  | Ok [] => Err ParsingException
+  | Ok ((_ :: _) as children) =>
       match jget "type" rel with Err e => Err e | Ok tv =>
       match jstr tv with Err e => Err e | Ok rtype =>
       match json_relation_cards rtype rel (List.length children) with
@@ -228,7 +230,8 @@ Proof.
      match jlist chv with Err e => Err e | Ok chl =>
      match rd_goc rec here k 0%nat chl with
      | Err e => Err e
-     | Ok children =>
+     | Ok [] => Err ParsingException
+     | Ok ((_ :: _) as children) =>
          match jget "type" rel with Err e => Err e | Ok tv =>
          match jstr tv with Err e => Err e | Ok rtype =>
          match json_relation_cards rtype rel (List.length children) with
@@ -242,10 +245,10 @@ Proof.
      end end end).
   destruct (jget "children" rel) as [chv|e]; [|reflexivity].
   destruct (jlist chv) as [chl|e]; [|reflexivity].
-  destruct (rd_goc rec here k 0%nat chl) as [children|e]; [|reflexivity].
+  destruct (rd_goc rec here k 0%nat chl) as [[|c0 children0]|e]; [reflexivity| |reflexivity].
   destruct (jget "type" rel) as [tv|e]; [|reflexivity].
   destruct (jstr tv) as [rtype|e]; [|reflexivity].
-  destruct (json_relation_cards rtype rel (List.length children)) as [[a b]|e]; reflexivity.
+  destruct (json_relation_cards rtype rel (List.length (c0 :: children0))) as [[a b]|e]; reflexivity.
 Qed.
 
 (* ------------------------------------------------------------------ ptr_wf_at / annotate, unfolded *)
@@ -326,11 +329,11 @@ Proof.
   intros Hrec H. unfold rd_rel in H.
   destruct (jget "children" rel) as [chv|e]; [|discriminate].
   destruct (jlist chv) as [chl|e]; [|discriminate].
-  destruct (rd_goc rec here k 0%nat chl) as [children|e] eqn:Hch; [|discriminate].
+  destruct (rd_goc rec here k 0%nat chl) as [[|c0 children0]|e] eqn:Hch; [discriminate| |discriminate].
   destruct (jget "type" rel) as [tv|e]; [|discriminate].
   destruct (jstr tv) as [rtype|e]; [|discriminate].
-  destruct (json_relation_cards rtype rel (List.length children)) as [[a b]|e]; [|discriminate].
-  inversion H; subst. exists a, b, children. split; [reflexivity|].
+  destruct (json_relation_cards rtype rel (List.length (c0 :: children0))) as [[a b]|e]; [|discriminate].
+  inversion H; subst. exists a, b, (c0 :: children0). split; [reflexivity|].
   eapply rd_goc_wf; eassumption.
 Qed.
 
@@ -659,28 +662,76 @@ Proof.
   cbn [map]. rewrite rd_goc_cons, (Hc _ _), (IH _ Hcs), an_goc_cons. reflexivity.
 Qed.
 
+(* the reader rejects a relation without children, so the written relation has to have one *)
 Lemma rd_rel_tree rec here k r :
+  r_children r <> [] ->
   Forall (rec_tree rec) (r_children r) ->
   rd_rel rec here k (json_rel r) =
   Ok (PRelation (PPath here) (r_min r) (r_max r) (an_goc here k 0%nat (r_children r))).
 Proof.
-  intros H. unfold rd_rel.
+  intros Hne H. unfold rd_rel.
   assert (Hch : jget "children" (json_rel r) = Ok (VList (map json_tree (r_children r))))
     by (destruct r; reflexivity).
   assert (Hty : jget "type" (json_rel r) = Ok (VStr (json_relation_type r)))
     by (destruct r; reflexivity).
-  rewrite Hch. cbn [jlist]. rewrite (rd_goc_tree _ _ _ _ _ H). rewrite Hty. cbn [jstr].
-  rewrite an_goc_length, json_relation_cards_type. reflexivity.
+  rewrite Hch. cbn [jlist]. rewrite (rd_goc_tree _ _ _ _ _ H).
+  destruct (an_goc here k 0%nat (r_children r)) as [|pc pcs] eqn:Ean.
+  { exfalso. apply Hne. apply length_zero_iff_nil.
+    rewrite <- (an_goc_length here k (r_children r) 0%nat), Ean. reflexivity. }
+  rewrite Hty. cbn [jstr].
+  rewrite <- Ean, an_goc_length, json_relation_cards_type. reflexivity.
 Qed.
 
+Lemma rd_rel_tree_empty rec here k a b :
+  rd_rel rec here k (json_rel (Relation a b [])) = Err ParsingException.
+Proof. reflexivity. Qed.
+
 Lemma rd_go_tree rec here : forall rs k,
-  Forall (fun r => Forall (rec_tree rec) (r_children r)) rs ->
+  Forall (fun r => r_children r <> [] /\ Forall (rec_tree rec) (r_children r)) rs ->
   rd_go rec here k (map json_rel rs) = Ok (an_go here k rs).
 Proof.
   induction rs as [|r rs IH]; intros k H; [reflexivity|].
-  inversion H as [|? ? Hr Hrs]; subst.
-  cbn [map]. rewrite rd_go_cons, (rd_rel_tree _ _ _ _ Hr), (IH _ Hrs).
+  inversion H as [|? ? [Hne Hr] Hrs]; subst.
+  cbn [map]. rewrite rd_go_cons, (rd_rel_tree _ _ _ _ Hne Hr), (IH _ Hrs).
   destruct r as [a b cs]. rewrite an_go_cons. reflexivity.
+Qed.
+
+(* [rels_nonempty] (C16Facts.v: every relation of the tree has a child), one level at a time *)
+Lemma rels_nonempty_children : forall cs,
+  Forall (fun r => r_children r <> []) (flat_map subrelations cs) -> Forall rels_nonempty cs.
+Proof.
+  induction cs as [|c cs IH]; intros H; [constructor|].
+  cbn [flat_map] in H. apply Forall_app in H. destruct H as [Hc Hcs].
+  constructor; [exact Hc|exact (IH Hcs)].
+Qed.
+
+Lemma rels_nonempty_inv i rs : rels_nonempty (Feature i rs) ->
+  Forall (fun r => r_children r <> [] /\ Forall rels_nonempty (r_children r)) rs.
+Proof.
+  unfold rels_nonempty at 1. cbn [subrelations].
+  induction rs as [|[a b cs] rs IH]; intros H; [constructor|].
+  cbn [flat_map] in H. change ((Relation a b cs :: flat_map subrelations cs) ++ ?l)
+    with (Relation a b cs :: (flat_map subrelations cs ++ l)) in H.
+  inversion H as [|? ? Hr Hrest]; subst. apply Forall_app in Hrest. destruct Hrest as [Hcs Hrs].
+  constructor; [|exact (IH Hrs)].
+  cbn [r_children] in *. split; [exact Hr|exact (rels_nonempty_children cs Hcs)].
+Qed.
+
+Lemma rels_nonempty_children_conv : forall cs,
+  Forall rels_nonempty cs -> Forall (fun r => r_children r <> []) (flat_map subrelations cs).
+Proof.
+  induction 1 as [|c cs Hc _ IH]; [constructor|].
+  cbn [flat_map]. apply Forall_app. split; [exact Hc|exact IH].
+Qed.
+
+Lemma rels_nonempty_intro i rs :
+  Forall (fun r => r_children r <> [] /\ Forall rels_nonempty (r_children r)) rs ->
+  rels_nonempty (Feature i rs).
+Proof.
+  unfold rels_nonempty at 2. cbn [subrelations].
+  induction 1 as [|[a b cs] rs [Hr Hcs] _ IH]; [constructor|].
+  cbn [flat_map r_children] in *. apply Forall_app. split; [|exact IH].
+  constructor; [exact Hr|exact (rels_nonempty_children_conv cs Hcs)].
 Qed.
 
 (* attributes *)
@@ -765,29 +816,41 @@ Proof.
   cbn [feature_json_ok]. f_equal. apply forallb_ext'. intros [a b cs]. reflexivity.
 Qed.
 
-(* any fuel at least the nesting depth of the written tree suffices *)
-Lemma json_parse_tree_json_tree : forall f, feature_json_ok f = true ->
+(* any fuel at least the nesting depth of the written tree suffices.
+   Before the reader rejected a relation without children the statement was
+     Lemma json_parse_tree_json_tree : forall f, feature_json_ok f = true ->
+       forall fuel here parent, aval_depth (json_tree f) <= fuel ->
+       json_parse_tree fuel here parent (json_tree f) = Ok (annotate here parent f).
+   It is false now ([feature_json_ok] allows a relation without children, see [json_roundtrip_old_false] below);
+   the added hypothesis is [rels_nonempty f]. *)
+Lemma json_parse_tree_json_tree : forall f, feature_json_ok f = true -> rels_nonempty f ->
   forall fuel here parent, aval_depth (json_tree f) <= fuel ->
   json_parse_tree fuel here parent (json_tree f) = Ok (annotate here parent f).
 Proof.
   apply (feature_ind2
-           (fun f => feature_json_ok f = true ->
+           (fun f => feature_json_ok f = true -> rels_nonempty f ->
                      forall fuel here parent, aval_depth (json_tree f) <= fuel ->
                      json_parse_tree fuel here parent (json_tree f) = Ok (annotate here parent f))
-           (fun r => Forall (fun f => feature_json_ok f = true ->
+           (fun r => Forall (fun f => feature_json_ok f = true -> rels_nonempty f ->
                      forall fuel here parent, aval_depth (json_tree f) <= fuel ->
                      json_parse_tree fuel here parent (json_tree f) = Ok (annotate here parent f))
                             (r_children r))).
-  - intros i rs IH Hok fuel here parent Hd.
+  - intros i rs IH Hok Hne fuel here parent Hd.
     rewrite feature_json_ok_eq in Hok. apply andb_prop in Hok. destruct Hok as [Hi Hrs].
+    apply rels_nonempty_inv in Hne.
     destruct fuel as [|fuel].
     { exfalso. rewrite json_tree_eq, aval_depth_VMap in Hd. lia. }
-    assert (Hrec : Forall (fun r => Forall (rec_tree (json_parse_tree fuel)) (r_children r)) rs).
-    { apply Forall_forall. intros r Hr. apply Forall_forall. intros c Hc h p.
+    assert (Hrec : Forall (fun r => r_children r <> []
+                                    /\ Forall (rec_tree (json_parse_tree fuel)) (r_children r)) rs).
+    { apply Forall_forall. intros r Hr.
+      rewrite Forall_forall in Hne. destruct (Hne r Hr) as [Hne_r Hne_cs].
+      split; [exact Hne_r|].
+      apply Forall_forall. intros c Hc h p.
       rewrite Forall_forall in IH. specialize (IH r Hr). rewrite Forall_forall in IH.
       apply (IH c Hc).
       - rewrite forallb_forall in Hrs. specialize (Hrs r Hr).
         rewrite forallb_forall in Hrs. exact (Hrs c Hc).
+      - rewrite Forall_forall in Hne_cs. exact (Hne_cs c Hc).
       - pose proof (depth_child i rs r c Hr Hc). lia. }
     rewrite json_parse_tree_S.
     assert (Hname : jget "name" (json_tree (Feature i rs)) = Ok (VStr (f_name i))) by reflexivity.
@@ -1011,10 +1074,20 @@ Proof.
 Qed.
 
 (* ------------------------------------------------------------------ C05: the theorems *)
-Theorem json_roundtrip : forall m, json_ok m = true ->
+(* Since the reader rejects a relation without children (json_reader.py raises on "children": []), the three
+   statements below need the hypothesis [rels_nonempty (root m)] (C16Facts.v: every relation of the tree has a
+   child).  The statements before that change were
+     Theorem json_roundtrip : forall m, json_ok m = true ->
+       exists d, json_write m = Ok d /\ json_read d = Ok (annotate_fm m).
+     Theorem json_roundtrip_erased : forall m, json_ok m = true ->
+       exists d pm, json_write m = Ok d /\ json_read d = Ok pm /\ erase_fm pm = m.
+     Theorem json_cycles : forall n m, json_ok m = true -> iter_cycle n m = Ok m.
+   and are refuted by [json_roundtrip_old_false] below; the hypothesis is also necessary
+   ([json_roundtrip_needs_nonempty]). *)
+Theorem json_roundtrip : forall m, json_ok m = true -> rels_nonempty (root m) ->
   exists d, json_write m = Ok d /\ json_read d = Ok (annotate_fm m).
 Proof.
-  intros m H. unfold json_ok in H. apply andb_prop in H. destruct H as [Hroot Hctcs].
+  intros m H Hne. unfold json_ok in H. apply andb_prop in H. destruct H as [Hroot Hctcs].
   destruct (constraints_roundtrip _ Hctcs) as (js & Hjs & Hrs).
   unfold json_write. rewrite Hjs. eexists. split; [reflexivity|].
   rewrite json_read_eq.
@@ -1023,14 +1096,14 @@ Proof.
   change (jget "constraints" (VMap [("features", json_tree (root m)); ("constraints", VList js)]))
     with (Ok (VList js)).
   cbv beta iota.
-  rewrite (json_parse_tree_json_tree _ Hroot _ _ _ (le_n _)). cbn [jlist]. rewrite Hrs.
+  rewrite (json_parse_tree_json_tree _ Hroot Hne _ _ _ (le_n _)). cbn [jlist]. rewrite Hrs.
   reflexivity.
 Qed.
 
-Theorem json_roundtrip_erased : forall m, json_ok m = true ->
+Theorem json_roundtrip_erased : forall m, json_ok m = true -> rels_nonempty (root m) ->
   exists d pm, json_write m = Ok d /\ json_read d = Ok pm /\ erase_fm pm = m.
 Proof.
-  intros m H. destruct (json_roundtrip m H) as (d & Hw & Hr).
+  intros m H Hne. destruct (json_roundtrip m H Hne) as (d & Hw & Hr).
   exists d, (annotate_fm m). split; [exact Hw|]. split; [exact Hr|].
   destruct m as [r cs]. unfold erase_fm, annotate_fm. cbn [proot pctcs root ctcs].
   rewrite erase_annotate. reflexivity.
@@ -1048,16 +1121,16 @@ Fixpoint iter_cycle (n : nat) (m : fm) : result fm :=
   | S k => match json_cycle m with Err e => Err e | Ok m' => iter_cycle k m' end
   end.
 
-Lemma json_cycle_id : forall m, json_ok m = true -> json_cycle m = Ok m.
+Lemma json_cycle_id : forall m, json_ok m = true -> rels_nonempty (root m) -> json_cycle m = Ok m.
 Proof.
-  intros m H. destruct (json_roundtrip_erased m H) as (d & pm & Hw & Hr & He).
+  intros m H Hne. destruct (json_roundtrip_erased m H Hne) as (d & pm & Hw & Hr & He).
   unfold json_cycle. rewrite Hw, Hr, He. reflexivity.
 Qed.
 
-Theorem json_cycles : forall n m, json_ok m = true -> iter_cycle n m = Ok m.
+Theorem json_cycles : forall n m, json_ok m = true -> rels_nonempty (root m) -> iter_cycle n m = Ok m.
 Proof.
-  induction n as [|n IH]; intros m H; [reflexivity|].
-  cbn [iter_cycle]. rewrite (json_cycle_id m H). apply IH. exact H.
+  induction n as [|n IH]; intros m H Hne; [reflexivity|].
+  cbn [iter_cycle]. rewrite (json_cycle_id m H Hne). apply IH; assumption.
 Qed.
 
 (* ------------------------------------------------------------------ fuel monotonicity of both readers *)
@@ -1193,6 +1266,9 @@ Definition ex_model : fm :=
                   c_ast := bin IMPLIES (un NOT (term "my feature"))
                              (bin AND (term "E") (bin XOR (term "C") (term "A"))) |} ] |}.
 
+Example ex_model_nonempty : rels_nonempty (root ex_model).
+Proof. repeat constructor; discriminate. Qed.
+
 Example ex_model_roundtrip :
   json_ok ex_model = true
   /\ List.length (subfeatures (root ex_model)) = 6
@@ -1211,6 +1287,168 @@ Example ex_null_dropped :
   json_ok m = false /\ json_cycle m <> Ok m.
 Proof. vm_compute. split; [reflexivity|discriminate]. Qed.
 
+(* ------------------------------------------------------------------ C02: no relation of an accepted tree is empty *)
+Definition jprel_ne (r : prelation) : bool :=
+  negb (Nat.eqb (List.length (pr_children r)) 0) && forallb rels_nonempty_p (pr_children r).
+
+Lemma json_rels_nonempty_p_eq : forall i p a rs,
+  rels_nonempty_p (PFeature i p a rs) = forallb jprel_ne rs.
+Proof.
+  intros i p a rs. cbn [rels_nonempty_p].
+  induction rs as [|[rp x y cs] rs IH]; [reflexivity|].
+  cbn [forallb]. rewrite IH. reflexivity.
+Qed.
+
+Definition rec_ne (rec : path -> ptr -> aval -> result pfeature) : Prop :=
+  forall h p c pc, rec h p c = Ok pc -> rels_nonempty_p pc = true.
+
+Lemma rd_goc_ne rec here k : rec_ne rec ->
+  forall chl j pcs, rd_goc rec here k j chl = Ok pcs -> forallb rels_nonempty_p pcs = true.
+Proof.
+  intros Hrec. induction chl as [|c cs IH]; intros j pcs H.
+  - rewrite rd_goc_nil in H. inversion H. reflexivity.
+  - rewrite rd_goc_cons in H.
+    destruct (rec (here ++ [(k, j)]) (PPath here) c) as [pc|e] eqn:Hc; [|discriminate].
+    destruct (rd_goc rec here k (S j) cs) as [pcs'|e] eqn:Hcs; [|discriminate].
+    inversion H; subst. cbn [forallb].
+    rewrite (Hrec _ _ _ _ Hc), (IH _ _ Hcs). reflexivity.
+Qed.
+
+Lemma rd_rel_ne rec here k rel pr : rec_ne rec ->
+  rd_rel rec here k rel = Ok pr -> jprel_ne pr = true.
+Proof.
+  intros Hrec H. unfold rd_rel in H.
+  destruct (jget "children" rel) as [chv|e]; [|discriminate].
+  destruct (jlist chv) as [chl|e]; [|discriminate].
+  destruct (rd_goc rec here k 0%nat chl) as [[|c0 children0]|e] eqn:Hch; [discriminate| |discriminate].
+  destruct (jget "type" rel) as [tv|e]; [|discriminate].
+  destruct (jstr tv) as [rtype|e]; [|discriminate].
+  destruct (json_relation_cards rtype rel (List.length (c0 :: children0))) as [[a b]|e]; [|discriminate].
+  inversion H; subst. unfold jprel_ne. cbn [pr_children].
+  rewrite (rd_goc_ne _ _ _ Hrec _ _ _ Hch). reflexivity.
+Qed.
+
+Lemma rd_go_ne rec here : rec_ne rec ->
+  forall rels k prs, rd_go rec here k rels = Ok prs -> forallb jprel_ne prs = true.
+Proof.
+  intros Hrec. induction rels as [|rel rest IH]; intros k prs H.
+  - rewrite rd_go_nil in H. inversion H. reflexivity.
+  - rewrite rd_go_cons in H.
+    destruct (rd_rel rec here k rel) as [pr|e] eqn:Hr; [|discriminate].
+    destruct (rd_go rec here (S k) rest) as [prs'|e] eqn:Hrs; [|discriminate].
+    inversion H; subst. cbn [forallb].
+    rewrite (rd_rel_ne _ _ _ _ _ Hrec Hr), (IH _ _ Hrs). reflexivity.
+Qed.
+
+Lemma rd_rels_ne rec here node prs : rec_ne rec ->
+  rd_rels rec here node = Ok prs -> forallb jprel_ne prs = true.
+Proof.
+  intros Hrec H. unfold rd_rels in H.
+  destruct (jhas "relations" node).
+  - destruct (jget "relations" node) as [rl|e]; [|discriminate].
+    destruct (jlist rl) as [rels|e]; [|discriminate].
+    eapply rd_go_ne; eassumption.
+  - inversion H. reflexivity.
+Qed.
+
+Lemma json_parse_tree_ne : forall fuel, rec_ne (json_parse_tree fuel).
+Proof.
+  induction fuel as [|fuel IH]; intros here parent node pf H.
+  - discriminate.
+  - rewrite json_parse_tree_S in H.
+    destruct (jget "name" node) as [n|e]; [|discriminate].
+    destruct (jget "abstract" node) as [ab|e]; [|discriminate].
+    destruct (jstr n) as [name|e]; [|discriminate].
+    destruct (json_read_attributes node) as [attrs|e]; [|discriminate].
+    destruct (rd_rels (json_parse_tree fuel) here node) as [prs|e] eqn:Hr; [|discriminate].
+    inversion H; subst. rewrite json_rels_nonempty_p_eq.
+    exact (rd_rels_ne _ _ _ _ IH Hr).
+Qed.
+
+Theorem json_read_nonempty : forall d pm, json_read d = Ok pm -> rels_nonempty_p (proot pm) = true.
+Proof.
+  intros d pm H. unfold json_read in H.
+  destruct (jget "features" d) as [fv|e]; [|discriminate].
+  destruct (jget "constraints" d) as [cv|e]; [|discriminate].
+  destruct (json_parse_tree (aval_depth fv) [] PNone fv) as [pr|e] eqn:Hp; [|discriminate].
+  destruct (jlist cv) as [cl|e]; [|discriminate].
+  match type of H with match ?X with _ => _ end = _ => destruct X as [cs|e]; [|discriminate] end.
+  inversion H; subst. cbn [proot].
+  eapply json_parse_tree_ne; eassumption.
+Qed.
+
+(* a document whose root has a relation with "children": [] is rejected *)
+Example json_read_empty_children :
+  json_read (VMap [("features",
+                    VMap [("name", VStr "R"); ("abstract", VBool false);
+                          ("relations", VList [VMap [("type", VStr jt_OPTIONAL); ("card_min", VInt 0);
+                                                     ("card_max", VInt 1); ("children", VList [])]])]);
+                   ("constraints", VList [])])
+  = Err ParsingException.
+Proof. vm_compute; reflexivity. Qed.
+
+(* the same relation with one child is accepted (so it is the empty list that is rejected) *)
+Example json_read_one_child :
+  exists pm,
+  json_read (VMap [("features",
+                    VMap [("name", VStr "R"); ("abstract", VBool false);
+                          ("relations", VList [VMap [("type", VStr jt_OPTIONAL); ("card_min", VInt 0);
+                                                     ("card_max", VInt 1);
+                                                     ("children", VList [VMap [("name", VStr "A");
+                                                                               ("abstract", VBool false)]])]])]);
+                   ("constraints", VList [])])
+  = Ok pm.
+Proof. vm_compute; eexists; reflexivity. Qed.
+
+(* ------------------------------------------------------------------ the hypothesis [rels_nonempty] of C05 *)
+(* the tree-level [rels_nonempty] and the pointer-tree [rels_nonempty_p] say the same *)
+Lemma rels_nonempty_p_annotate : forall f here p,
+  rels_nonempty_p (annotate here p f) = true -> rels_nonempty f.
+Proof.
+  apply (feature_ind2
+           (fun f => forall here p, rels_nonempty_p (annotate here p f) = true -> rels_nonempty f)
+           (fun r => Forall (fun c => forall here p, rels_nonempty_p (annotate here p c) = true -> rels_nonempty c)
+                            (r_children r))).
+  - intros i rs IH here p H. rewrite annotate_eq, json_rels_nonempty_p_eq in H.
+    apply rels_nonempty_intro. revert H. generalize 0%nat as k.
+    induction IH as [|r rs Hr _ IHrs]; intros k H; [constructor|].
+    destruct r as [a b cs]. rewrite an_go_cons in H. cbn [forallb] in H.
+    apply andb_prop in H. destruct H as [Hr1 Hrest].
+    constructor; [|exact (IHrs _ Hrest)].
+    unfold jprel_ne in Hr1. cbn [pr_children r_children] in *.
+    apply andb_prop in Hr1. destruct Hr1 as [Hlen Hcs]. split.
+    + intros ->. discriminate Hlen.
+    + clear Hlen. revert Hcs. generalize 0%nat as j.
+      induction Hr as [|c cs Hc _ IHcs]; intros j Hcs; [constructor|].
+      rewrite an_goc_cons in Hcs. cbn [forallb] in Hcs.
+      apply andb_prop in Hcs. destruct Hcs as [Hc1 Hcs1].
+      constructor; [exact (Hc _ _ Hc1)|exact (IHcs _ Hcs1)].
+  - intros a b cs IH. exact IH.
+Qed.
+
+(* the added hypothesis is necessary: a model that survives the round trip has no relation without children *)
+Theorem json_roundtrip_needs_nonempty : forall m d,
+  json_write m = Ok d -> json_read d = Ok (annotate_fm m) -> rels_nonempty (root m).
+Proof.
+  intros m d _ Hr. apply json_read_nonempty in Hr. unfold annotate_fm in Hr. cbn [proot] in Hr.
+  exact (rels_nonempty_p_annotate _ _ _ Hr).
+Qed.
+
+(* the statements of C05 without that hypothesis are false: a model of the JSON fragment with a relation
+   without children is written, and the reader rejects what was written *)
+Definition ex_empty_rel : fm :=
+  {| root := Feature (mk_info "R") [Relation 0 1 []]; ctcs := [] |}.
+Example json_roundtrip_old_false :
+  json_ok ex_empty_rel = true
+  /\ (exists d, json_write ex_empty_rel = Ok d /\ json_read d = Err ParsingException)
+  /\ json_cycle ex_empty_rel = Err ParsingException
+  /\ ~ rels_nonempty (root ex_empty_rel).
+Proof.
+  split; [vm_compute; reflexivity|]. split; [vm_compute; eexists; split; reflexivity|].
+  split; [vm_compute; reflexivity|].
+  intros H. inversion H as [|? ? Hr _]; subst. apply Hr. reflexivity.
+Qed.
+
 Print Assumptions json_roundtrip.
 Print Assumptions erase_annotate.
 Print Assumptions json_roundtrip_erased.
@@ -1222,3 +1460,7 @@ Print Assumptions json_parse_tree_mono.
 Print Assumptions json_parse_ctc_mono.
 Print Assumptions json_parse_tree_json_tree.
 Print Assumptions ex_model_roundtrip.
+Print Assumptions json_read_nonempty.
+Print Assumptions json_read_empty_children.
+Print Assumptions json_roundtrip_needs_nonempty.
+Print Assumptions json_roundtrip_old_false.
